@@ -85,8 +85,8 @@ impl Hist {
             if let Some(parent) = std::path::Path::new(p).parent() {
                 std::fs::create_dir_all(parent).expect("mkdir");
             }
-            if !std::path::Path::new(p).exists() {
-                std::fs::write(p, t).expect("write");
+            if !os(p).exists() {
+                std::fs::write(os(p), t).expect("write");
             }
         }
     }
@@ -223,6 +223,10 @@ struct Layout {
     bad: Vec<Target>,
     missing: Vec<Target>,
     unsupported: Vec<Target>,
+    q_many: Vec<Target>,   // 20 query files with pairwise different text
+    s_many: Vec<Target>,   // 20 schema files; files i and i+16 differ in content
+    q_bytes: Vec<Target>,  // two query files whose names differ in one non-UTF-8 byte
+    s_bytes: Vec<Target>,  // two schema files (different versions) whose names differ in one non-UTF-8 byte
 }
 
 fn layout(rng: &mut Rng, root: &str) -> Layout {
@@ -230,7 +234,7 @@ fn layout(rng: &mut Rng, root: &str) -> Layout {
     let b = schema_set(rng, 1);
     let (d1, d2) = (format!("{}/d1", root), format!("{}/d2", root));
     let mut l = Layout { files: vec![], dirs: vec![format!("{}/sub", d1), format!("{}/sub", d2)], q_good: vec![], q_other: vec![], s_good: vec![],
-        s_other: vec![], s_v2: vec![], bad: vec![], missing: vec![], unsupported: vec![] };
+        s_other: vec![], s_v2: vec![], bad: vec![], missing: vec![], unsupported: vec![], q_many: vec![], s_many: vec![], q_bytes: vec![], s_bytes: vec![] };
     let mk = |dir: &str, name: &str, kind: &'static str, text: &str| Target { dir: dir.into(), name: name.into(), kind, text: Some(text.into()) };
     l.q_good.push(mk(&d1, "q.graphql", "query", &a.queries[0]));
     l.q_good.push(mk(&d1, "q2.graphql", "query", &a.queries[1]));
@@ -249,7 +253,17 @@ fn layout(rng: &mut Rng, root: &str) -> Layout {
     l.missing.push(Target { dir: d1.clone(), name: "missing.graphql".into(), kind: "missing", text: None });
     l.missing.push(Target { dir: format!("{}/nodir", root), name: "schema.graphql".into(), kind: "missing", text: None });
     l.missing.push(Target { dir: d2.clone(), name: "q2.graphql".into(), kind: "missing", text: None });
-    for t in l.q_good.iter().chain(&l.q_other).chain(&l.s_good).chain(&l.s_other).chain(&l.s_v2).chain(&l.bad).chain(&l.unsupported) {
+    let d3 = format!("{}/many", root);
+    for i in 0..20usize {
+        l.q_many.push(mk(&d3, &format!("q{:02}.graphql", i), "query", &format!("{}# file {}\n", a.queries[i % 2], i)));
+        let stext = match i % 3 { 0 => &a.sdl, 1 => &a.sdl_v2, _ => &b.sdl };
+        l.s_many.push(mk(&d3, &format!("s{:02}.graphql", i), "schema", stext));
+    }
+    l.q_bytes.push(mk(&d3, "q%FF.graphql", "query", &a.queries[0]));
+    l.q_bytes.push(mk(&d3, "q%FE.graphql", "query", &a.queries[1]));
+    l.s_bytes.push(mk(&d3, "s%FF.graphql", "schema", &a.sdl));
+    l.s_bytes.push(mk(&d3, "s%FE.graphql", "schema", &a.sdl_v2));
+    for t in l.q_good.iter().chain(&l.q_other).chain(&l.s_good).chain(&l.s_other).chain(&l.s_v2).chain(&l.bad).chain(&l.unsupported).chain(&l.q_many).chain(&l.s_many).chain(&l.q_bytes).chain(&l.s_bytes) {
         l.files.push((t.plain(), t.text.clone().unwrap()));
     }
     l
@@ -507,6 +521,23 @@ pub fn witness_histories(idx: &mut usize) -> Vec<Hist> {
             }
             v.push(f(l, &l.q_good[0], &l.s_good[0], Entry::File, 0, 0, 0));
             v
+        }, tf);
+        // more distinct files than any bounded cache would hold, then the first ones again
+        new("many-distinct-files-then-the-first-again", &|_, l| {
+            let mut v: Vec<Call> = (0..20).map(|i| f(l, &l.q_many[i], &l.s_many[i], Entry::File, 0, 0, 0)).collect();
+            v.extend((0..6).map(|i| f(l, &l.q_many[i], &l.s_many[i], Entry::File, 0, 0, 0)));
+            v.extend((0..3).map(|i| f(l, &l.q_many[i], &l.s_many[i], Entry::Str, 0, 0, 0)));
+            v
+        }, tf);
+        // file names that differ only in a byte that is not valid UTF-8
+        new("file-names-differing-in-a-non-utf8-byte", &|_, l| {
+            vec![
+                f(l, &l.q_bytes[0], &l.s_bytes[0], Entry::File, 0, 0, 0),
+                f(l, &l.q_bytes[1], &l.s_bytes[1], Entry::File, 0, 0, 0),
+                f(l, &l.q_bytes[0], &l.s_bytes[1], Entry::File, 0, 0, 0),
+                f(l, &l.q_bytes[1], &l.s_bytes[0], Entry::File, 0, 0, 0),
+                f(l, &l.q_bytes[0], &l.s_bytes[0], Entry::File, 0, 0, 0),
+            ]
         }, tf);
         // unparsable inputs through both entry points, then good ones on the same files
         new("unparsable-then-good", &|_, l| {
